@@ -72,6 +72,9 @@ pub enum Edit {
     DeleteGroup(u64, bool), // recursive delete; bool = tombstones parent-first
     RenameGroup(u64),
     TouchGroup(u64), // change mtime only
+    ToggleGroupExpiry(u64),  // flip the group's expiry flag, bump its usage count, set expiry and modification time
+    ToggleEntryExpiry(u64),  // the same for an entry (committed to the history)
+    EditEntryNoHistory(u64), // a writer that records no history: history = None, a field and the modification time change
 }
 
 fn find_group_mut<'a>(g: &'a mut Group, id: u64) -> Option<&'a mut Group> {
@@ -276,6 +279,43 @@ pub fn apply(db: &mut Database, ed: &Edit, at: i64, fresh: &mut u64) -> bool {
                 false
             }
         }
+        Edit::ToggleGroupExpiry(id) => {
+            if let Some(g) = find_group_mut(&mut db.root, *id) {
+                g.times.expires = !g.times.expires;
+                g.times.usage_count += 1;
+                g.times.set_expiry(ts(at + 500));
+                g.times.set_last_modification(ts(at));
+                true
+            } else {
+                false
+            }
+        }
+        Edit::ToggleEntryExpiry(id) => {
+            if let Some(e) = find_entry_mut(&mut db.root, *id) {
+                e.times.expires = !e.times.expires;
+                e.times.usage_count += 1;
+                e.times.set_expiry(ts(at + 500));
+                e.times.set_last_modification(ts(at));
+                let snap = e.clone();
+                if e.history.is_none() {
+                    e.history = Some(History::default());
+                }
+                e.history.as_mut().unwrap().add_entry(snap);
+                true
+            } else {
+                false
+            }
+        }
+        Edit::EditEntryNoHistory(id) => {
+            if let Some(e) = find_entry_mut(&mut db.root, *id) {
+                e.history = None;
+                e.fields.insert("URL".into(), Value::Unprotected(format!("https://{}", at)));
+                e.times.set_last_modification(ts(at));
+                true
+            } else {
+                false
+            }
+        }
     }
 }
 
@@ -291,6 +331,8 @@ pub fn alphabet(db: &Database) -> Vec<Edit> {
         out.push(Edit::SetEntry(*e, 0));
         out.push(Edit::SetEntry(*e, 1));
         out.push(Edit::DeleteEntry(*e));
+        out.push(Edit::ToggleEntryExpiry(*e));
+        out.push(Edit::EditEntryNoHistory(*e));
         for g in &groups {
             out.push(Edit::MoveEntry(*e, *g));
         }
@@ -300,6 +342,7 @@ pub fn alphabet(db: &Database) -> Vec<Edit> {
         out.push(Edit::AddGroup(*g));
         out.push(Edit::RenameGroup(*g));
         out.push(Edit::TouchGroup(*g));
+        out.push(Edit::ToggleGroupExpiry(*g));
         if *g != idn(&db.root.uuid) {
             out.push(Edit::DeleteGroup(*g, true));
             out.push(Edit::DeleteGroup(*g, false));
@@ -406,15 +449,52 @@ fn run_pair(ctx: &mut Ctx, ea: &[Edit], eb: &[Edit], tags: Vec<String>) -> bool 
 
 /// `tie`: the two replicas use the same clock readings (the i-th edit of either side happens in the same second)
 fn run_pair_t(ctx: &mut Ctx, ea: &[Edit], eb: &[Edit], tags: Vec<String>, tie: bool) -> bool {
-    let mut a = ancestor();
-    let mut b = ancestor();
+    run_pair_on(ctx, &ancestor(), ea, eb, tags, tie)
+}
+
+/// a common ancestor whose groups all live below one top-level group: root(1){ T(2){ random nesting of groups 3..n, an entry each second group } }
+fn deep_ancestor(rng: &mut Rng, n: u64) -> Database {
+    let mut db = Database::new(Default::default());
+    db.root = new_group(1, 100, "Root");
+    db.root.children.push(Node::Group(new_group(2, 100, "T")));
+    for id in 3..=n {
+        let parent = rng.range(2, id - 1);
+        let mut g = new_group(id, 100, &format!("g{}", id));
+        if id % 2 == 0 {
+            g.children.push(Node::Entry(new_entry(100 + id, 100, &format!("e{}", id))));
+        }
+        find_group_mut(&mut db.root, parent).unwrap().children.push(Node::Group(g));
+    }
+    db
+}
+
+/// root(1){ T(2){ g3, g4, …, gn } }
+fn flat_ancestor(n: u64) -> Database {
+    let mut db = Database::new(Default::default());
+    db.root = new_group(1, 100, "Root");
+    let mut t = new_group(2, 100, "T");
+    for id in 3..=n {
+        t.children.push(Node::Group(new_group(id, 100, &format!("g{}", id))));
+    }
+    db.root.children.push(Node::Group(t));
+    db
+}
+
+fn run_pair_on(ctx: &mut Ctx, anc: &Database, ea: &[Edit], eb: &[Edit], tags: Vec<String>, tie: bool) -> bool {
+    run_pair_at(ctx, anc, ea, eb, tags, if tie { 101 } else { 102 })
+}
+
+/// `b0`: the clock reading of the source side's first edit (the destination side's edits happen at 101, 103, …)
+fn run_pair_at(ctx: &mut Ctx, anc: &Database, ea: &[Edit], eb: &[Edit], tags: Vec<String>, b0: i64) -> bool {
+    let mut a = anc.clone();
+    let mut b = anc.clone();
     let (mut fa, mut fb) = (1000u64, 2000u64);
     let mut ok = true;
     for (i, e) in ea.iter().enumerate() {
         ok &= apply(&mut a, e, 101 + 2 * i as i64, &mut fa);
     }
     for (i, e) in eb.iter().enumerate() {
-        ok &= apply(&mut b, e, if tie { 101 } else { 102 } + 2 * i as i64, &mut fb);
+        ok &= apply(&mut b, e, b0 + 2 * i as i64, &mut fb);
     }
     if !ok {
         return true;
@@ -492,6 +572,57 @@ pub fn run(ctx: &mut Ctx) {
         }
         let ea: Vec<Edit> = if rng.chance(1, 2) { vec![] } else { vec![rng.pick(&alpha).clone()] };
         if !run_pair(ctx, &ea, &eb, vec!["deletion-heavy".into()]) {
+            ctx.out_flush_and_exit();
+        }
+    }
+    // chains of moves that unblock each other in the wrong order: the destination nests G1{G2{T1, G3{T2, …}}}, the source
+    // keeps T1 … Tm as siblings and moves Gi below Ti; the move of Gi is possible only after that of Gi+1 (m passes)
+    for m in 2..=ctx.count(6, 9) as u64 {
+        for b0 in [300i64, 102] {
+            for extra_top in 0..2u64 {
+                let mut anc = flat_ancestor(2 + 2 * m);
+                for x in 0..extra_top {
+                    anc.root.children.push(Node::Group(new_group(50 + x, 100, "top")));
+                }
+                let (g, t) = (|i: u64| 2 + i, |i: u64| 2 + m + i);
+                let mut ea = Vec::new();
+                for i in 2..=m {
+                    ea.push(Edit::MoveGroup(g(i), g(i - 1)));
+                    ea.push(Edit::MoveGroup(t(i - 1), g(i)));
+                }
+                let eb: Vec<Edit> = (1..=m).map(|i| Edit::MoveGroup(g(i), t(i))).collect();
+                if !run_pair_at(ctx, &anc, &ea, &eb, vec!["unblocking-chain".into()], b0) {
+                    ctx.out_flush_and_exit();
+                }
+            }
+        }
+    }
+    // several group moves on both sides below a single top-level group (moves that unblock each other): the ancestor is
+    // either nested at random or flat (all groups siblings), the destination side moves first, the source side later
+    for k in 0..ctx.count(2500, 40000) {
+        let n = 5 + (k % 4) as u64;
+        let anc = if k % 3 == 0 { deep_ancestor(&mut rng, n) } else { flat_ancestor(n) };
+        let moves = |rng: &mut Rng, len: usize, base: i64| -> Vec<Edit> {
+            let mut db = anc.clone();
+            let mut fresh = 5000u64;
+            let mut out = Vec::new();
+            for i in 0..len {
+                let al: Vec<Edit> = alphabet(&db).into_iter().filter(|e| matches!(e, Edit::MoveGroup(g, h) if *g != 2 && *h != 1)).collect();
+                if al.is_empty() {
+                    break;
+                }
+                let e = rng.pick(&al).clone();
+                if apply(&mut db, &e, base + i as i64, &mut fresh) {
+                    out.push(e);
+                }
+            }
+            out
+        };
+        let lb = rng.range(2, 6) as usize;
+        let la = if k % 3 == 0 { rng.below(2) as usize } else { rng.range(2, 6) as usize };
+        let eb = moves(&mut rng, lb, 1000);
+        let ea = moves(&mut rng, la, 900);
+        if !run_pair_at(ctx, &anc, &ea, &eb, vec!["deep-moves".into()], if k % 2 == 0 { 102 } else { 300 }) {
             ctx.out_flush_and_exit();
         }
     }
